@@ -9,6 +9,9 @@
    overlay (nothing is executed, /repo is never modified):
      a. every confirmed seeded change of the property under /verif/seeded must be
         reported (a rule that went vacuous after a refactoring shows up here);
+     a'. every behaviour-preserving refactoring kept next to a seeded change
+        (neutral.diff) is analysed too; one that is not silent is listed as
+        REFACTORING-SENSITIVE (a known limit, not a failure);
      b. a behaviour-preserving variant (every receiver, parameter and local
         renamed; comparisons, if/else, keyed literals and messages reshaped)
         must give exactly the verdicts of the unchanged tree;
@@ -51,7 +54,7 @@ def main():
     base_bad = V.failing(base)
 
     tmp = tempfile.mkdtemp(prefix="lunar-thorough-")
-    out = {"seeded": [], "neutral": None, "mutants": None}
+    out = {"seeded": [], "refactorings": [], "neutral": None, "mutants": None}
     try:
         # a. seeded changes
         def seeded(d):
@@ -66,6 +69,20 @@ def main():
             shutil.rmtree(tree, ignore_errors=True)
             new = sorted(V.failing(verd) - base_bad)
             return {"seed": name, "status": "detected" if rc != 0 and new else "MISSED", "by": new[:4]}
+
+        def refactored(d):
+            """the behaviour-preserving refactoring kept next to a seeded change must be silent"""
+            name = os.path.basename(d)
+            tree = os.path.join(tmp, "r-" + name)
+            V.scratch_copy(tree)
+            ok, how = V.apply_patch(tree, os.path.join(d, "neutral.diff"))
+            if not ok:
+                shutil.rmtree(tree, ignore_errors=True)
+                return {"refactoring": name, "status": "does not apply to the current tree"}
+            rc, verd, _ = V.run_check(prop, tree, os.path.join(tmp, "rv-" + name))
+            shutil.rmtree(tree, ignore_errors=True)
+            new = sorted(V.failing(verd) - base_bad) if verd is not None else ["(no evidence)"]
+            return {"refactoring": name, "status": "silent" if rc == 0 and not new else "ALARM", "by": new[:4]}
 
         def neutral(_):
             if prop == "C19":
@@ -88,6 +105,7 @@ def main():
         with ThreadPoolExecutor(max_workers=jobs) as ex:
             fut_n = ex.submit(neutral, None)
             out["seeded"] = list(ex.map(seeded, dirs))
+            out["refactorings"] = list(ex.map(refactored, [d for d in dirs if os.path.exists(os.path.join(d, "neutral.diff"))]))
             out["neutral"] = fut_n.result()
         # c. syntactic mutants of the anchored functions
         if prop == "C19" and n_mut > 0:
@@ -113,6 +131,12 @@ def main():
         if s["status"] != "detected":
             print(f"thorough: LIVENESS-GAP seeded change {s['seed']}: {s['status']}")
     print(f"thorough: behaviour-preserving variant (renamed and reshaped): {out['neutral']['status']}")
+    rf = out.get("refactorings", [])
+    if rf:
+        print(f"thorough: behaviour-preserving refactorings on file: {sum(1 for x in rf if x['status'] == 'silent')}/{len(rf)} silent")
+        for x in rf:
+            if x["status"] != "silent":
+                print(f"thorough: REFACTORING-SENSITIVE {x['refactoring']}: {x['status']} {x.get('by', [])[:2]} (known limit, DESIGN 11.7)")
     if out["neutral"]["status"] == "DIFFERS":
         print(f"thorough: SELFTEST rename variant changes verdicts of {out['neutral']['differing']}")
     if out["mutants"]:
@@ -121,7 +145,7 @@ def main():
     ev["tier"] = "thorough"
     cov = ev["coverage"]
     cov["variants"] = out
-    cov["variant_runs"] = na + (1 if out["neutral"] and out["neutral"]["status"] in ("silent", "DIFFERS") else 0) + (out["mutants"]["sampled"] if out["mutants"] else 0)
+    cov["variant_runs"] = len(out.get("refactorings", [])) + na + (1 if out["neutral"] and out["neutral"]["status"] in ("silent", "DIFFERS") else 0) + (out["mutants"]["sampled"] if out["mutants"] else 0)
     cov["rule"] = cov.get("rule", "") + " | thorough: the same obligations, plus static analysis of scratch variants (seeded changes must be reported, a renamed and reshaped variant must be silent, sampled syntactic mutants measure rule liveness); variants never change the verdict"
     ev["wall_s"] = time.time() - t0
     json.dump(ev, open(evfile, "w"), indent=1)
